@@ -161,9 +161,10 @@ def gen_case(seed, tier):
     return {'prop': PROP, 'seed': seed, 'knobs': knobs, 'shared': shared, 'glommers': glommers,
             'default_regs': default_regs,
             'shared_targets': shared_targets, 'tasks': tasks, 'faults': {}, 'switches': {},
-            'exc_pool': rng.sample(['ValueError', 'KeyError', 'TypeError', 'AttributeError',
-                                    'UserErr', 'UGlomErr', 'RuntimeError', 'IndexError',
-                                    'ZeroDivisionError'], 3)}
+            'exc_pool': (rng.sample(['ValueError', 'KeyError', 'TypeError', 'AttributeError',
+                                     'UserErr', 'UGlomErr', 'RuntimeError', 'IndexError',
+                                     'ZeroDivisionError'], 3) if rng.random() > 0.1 else
+                         ['UserErr', 'UserErrTwin'])}     # two unrelated classes with the same __name__
 
 
 _NO_STUB = object()
